@@ -67,7 +67,29 @@ def run(ctx):
             shown += 1
             res["violations"].append({"what": f"the string value {t!r} is printed as \"{impl[1]}\", which is not one closed string literal",
                                       "input": t, "finding": None})
-    res["evaluations"] += len(cases)
+    # (3) every Python identifier over [A-Za-z0-9_] is printed as a legal identifier token, conversion on or off
+    import itertools
+    import re
+
+    from safeds_stubgen.stubs_generator._helper import NamingConvention, _convert_name_to_convention, _replace_if_safeds_keyword
+    ident = re.compile(r"[A-Za-z_][A-Za-z0-9_]*")
+    kws = set(oracles.sdsparse.KEYWORDS)
+    idents = [n for k in range(1, 6 if tier == "quick" else 8) for n in map("".join, itertools.product("aB1_", repeat=k)) if n.isidentifier()]
+    idents += sorted(kws) + ["_" + k for k in sorted(kws)] + [k + "_" for k in sorted(kws)] + ["_1", "__", "___", "_9_lives", "__1__", "_1_a", "_a_1"]
+    shown = 0
+    for n in idents:
+        for conv_on in (False, True):
+            for is_cls in (False, True):
+                out = _replace_if_safeds_keyword(_convert_name_to_convention(
+                    n, NamingConvention.SAFE_DS if conv_on else NamingConvention.PYTHON, is_class_name=is_cls))
+                legal = (ident.fullmatch(out) and out not in kws) or (out[:1] == "`" and out[-1:] == "`" and ident.fullmatch(out[1:-1]))
+                if not legal and shown < 5:
+                    shown += 1
+                    res["violations"].append({"what": f"the Python identifier {n!r} is printed as {out!r}, which is not a Safe-DS identifier "
+                                                      f"(naming conversion {'on' if conv_on else 'off'}, class name: {is_cls})",
+                                              "input": [n, conv_on, is_cls], "finding": None})
+    res["stats"]["identifiers_checked"] = len(idents) * 4
+    res["evaluations"] += len(cases) + len(idents) * 4
     res["stats"]["files_scanned"] = len(texts)
     res["stats"]["escape_cases"] = len(cases)
     res["stats"]["escape_cases_with_terminator_or_quote"] = sum(1 for t in cases if "*/" in t or '"' in t or "\\" in t or "\n" in t)
